@@ -10,6 +10,7 @@ package main
 import (
 	"fmt"
 	"go/token"
+	"strings"
 
 	"golang.org/x/tools/go/ssa"
 )
@@ -100,6 +101,74 @@ func RunFixpointCover(w *World, r *Report, br *boundsRun, fns []*ssa.Function) {
 				r.Fail("fixpointcover", key, w.Pos(badPos), bad+": the fixed point can be declared reached while an offset that is written into the output still changes", nil)
 			} else {
 				r.OK("fixpointcover", key, w.Pos(loopPos(w, l)), fmt.Sprintf("%d other reads of the compared slices, none provably beyond the compared range", n))
+			}
+		}
+		// the same test written as slices.Equal(x[:k], y[:k]) inside a loop
+		for _, b := range fn.Blocks {
+			for _, in := range b.Instrs {
+				call, ok := in.(*ssa.Call)
+				if !ok || len(call.Call.Args) != 2 {
+					continue
+				}
+				callee := call.Call.StaticCallee()
+				if callee == nil || !strings.HasPrefix(callee.Name(), "Equal") || !strings.HasSuffix(fnPkgPath(callee), "slices") {
+					continue
+				}
+				var outer *natLoop
+				for _, o := range loops {
+					if o.body[b] && (outer == nil || outer.body[o.head]) {
+						outer = o
+					}
+				}
+				if outer == nil {
+					continue
+				}
+				var bases [2]ssa.Value
+				var his [2]ssa.Value
+				okArgs := true
+				for i, a := range call.Call.Args {
+					if sl, isSl := a.(*ssa.Slice); isSl {
+						if sl.Low != nil {
+							okArgs = false
+						}
+						bases[i], his[i] = p.canonVal(sl.X), sl.High
+					} else {
+						bases[i] = p.canonVal(a)
+					}
+				}
+				if !okArgs || bases[0] == bases[1] {
+					continue
+				}
+				key := r.MkKey("fixpointcover", fnName(fn), "comparison by slices.Equal")
+				bad := ""
+				var badPos token.Pos
+				n := 0
+				for ob := range outer.body {
+					for _, oin := range ob.Instrs {
+						ia, ok := oin.(*ssa.IndexAddr)
+						if !ok {
+							continue
+						}
+						base := p.canonVal(ia.X)
+						for i := 0; i < 2; i++ {
+							if base != bases[i] || his[i] == nil {
+								continue
+							}
+							n++
+							// the compared prefix was cut explicitly: it has to be shown to reach past every entry read
+							// (high - 1 - index >= 0); comparing the slices whole needs no argument
+							if d, ok := p.linOf(his[i]).sub(p.linOf(ia.Index)); !ok || !p.proveAt(ob, d.addc(-1)) {
+								bad = fmt.Sprintf("element %s is read here, and the comparison covers only the indices below %s, which is not shown to lie beyond it", p.linStr(p.linOf(ia.Index)), p.linStr(p.linOf(his[i])))
+								badPos = ia.Pos()
+							}
+						}
+					}
+				}
+				if bad != "" {
+					r.Fail("fixpointcover", key, w.Pos(badPos), bad+": the fixed point can be declared reached while an offset that is written into the output still changes", nil)
+				} else {
+					r.OK("fixpointcover", key, w.Pos(call.Pos()), fmt.Sprintf("%d reads of the compared slices, none provably beyond the compared range", n))
+				}
 			}
 		}
 	}
